@@ -873,9 +873,139 @@ def cases_c06(ctx, boost):
     return out
 
 
+# =============================================================================== C05
+def item_paths(it, path=()):
+    """every sub-item position: path of ('k', i) / ('v', i) / ('a', i) / ('t',) steps"""
+    yield path
+    if it[0] == 'arr':
+        for i, x in enumerate(it[1]):
+            yield from item_paths(x, path + (('a', i),))
+    elif it[0] == 'map':
+        for i, (k, v) in enumerate(it[1]):
+            yield from item_paths(v, path + (('v', i),))
+    elif it[0] == 'tag':
+        yield from item_paths(it[2], path + (('t',),))
+
+
+def item_replace(it, path, fn):
+    if not path:
+        return fn(it)
+    step = path[0]
+    if step[0] == 'a':
+        xs = list(it[1]); xs[step[1]] = item_replace(xs[step[1]], path[1:], fn); return ('arr', xs)
+    if step[0] == 'v':
+        es = list(it[1]); k, v = es[step[1]]; es[step[1]] = (k, item_replace(v, path[1:], fn)); return ('map', es)
+    if step[0] == 't':
+        return ('tag', it[1], item_replace(it[2], path[1:], fn))
+    return it
+
+
+def widen(it, rng):
+    """re-encode the head of this item non-minimally (same value, longer argument)"""
+    k = it[0]
+    major, n = {'u': (0, None), 'neg': (1, None), 'bytes': (2, None), 'text': (3, None), 'arr': (4, None), 'map': (5, None)}.get(k, (None, None))
+    if major is None:
+        return None
+    n = it[1] if k in ('u', 'neg') else len(it[1])
+    need = 0 if n < 24 else 1 if n < 256 else 2 if n < 65536 else 4 if n < 2 ** 32 else 8
+    wider = [w for w in (1, 2, 4, 8) if w > need]
+    if not wider:
+        return None
+    w = rng.choice(wider)
+    body = b"" if k in ('u', 'neg') else (it[1] if k in ('bytes', 'text') else
+                                            b"".join(casegen.enc_item_ext(x) for x in it[1]) if k == 'arr' else
+                                            b"".join(casegen.enc_item_ext(a) + casegen.enc_item_ext(b) for a, b in it[1]))
+    return ('raw', casegen.forced_head(major, n, w) + body)
+
+
+def indefinite(it):
+    k = it[0]
+    if k == 'bytes':
+        return ('raw', b"\x5f" + casegen.enc_item(it) + b"\xff")
+    if k == 'text':
+        return ('raw', b"\x7f" + casegen.enc_item(it) + b"\xff")
+    if k == 'arr':
+        return ('raw', b"\x9f" + b"".join(casegen.enc_item_ext(x) for x in it[1]) + b"\xff")
+    if k == 'map':
+        return ('raw', b"\xbf" + b"".join(casegen.enc_item_ext(a) + casegen.enc_item_ext(b) for a, b in it[1]) + b"\xff")
+    return None
+
+
+OTHER_TYPES = [('u', 7), ('neg', 7), ('bytes', b"ab"), ('text', b"ab"), ('arr', []), ('map', []), ('simple', 21)]
+
+
+def cases_c05(ctx, boost):
+    out = []
+    for cfg in ctx.cfgs(("000", "111")):
+        g = ctx.gen(cfg)
+        rng = g.rng
+        for b in range(256):
+            out.append(Case("req", cfg, f"req {cfg} {b:02x}", tag="command byte alone"))
+            out.append(Case("req", cfg, f"req {cfg} {b:02x}a0", tag="command byte + empty map"))
+        out.append(Case("req", cfg, f"req {cfg} -", tag="empty message"))
+        for variant, payload in ctx.data["schemas"][cfg]["variants"]["request_variants"]:
+            if not payload or payload == "vendor":
+                continue
+            t = {"named": payload}
+            cb = CMD_BYTE[variant][0]
+            seeds = [g.wire_item(t, g.rand_val(t, p_opt=1.0), lossy=0.0)] + \
+                    [g.wire_item(t, g.rand_val(t, p_opt=0.4), lossy=0.0) for _ in range(boost)]
+            for seed in seeds:
+                def add(it, tag):
+                    try:
+                        b = casegen.enc_item_ext(it)
+                    except Exception:
+                        return
+                    out.append(Case("req", cfg, f"req {cfg} {cb:02x}{b.hex()}", tag=f"{variant} {tag}"))
+                full = casegen.enc_item_ext(seed)
+                add(seed, "seed")
+                step = 1 if len(full) < 400 or ctx.tier == "thorough" else 3
+                for cut in range(0, len(full), step):                      # truncation at every offset
+                    out.append(Case("req", cfg, f"req {cfg} {cb:02x}{full[:cut].hex()}", tag=f"{variant} truncated"))
+                paths = list(item_paths(seed))
+                for pth in paths:
+                    sub = [None]
+                    item_replace(seed, pth, lambda x: (sub.__setitem__(0, x), x)[1])
+                    it = sub[0]
+                    if it[0] == 'map':
+                        for i in range(len(it[1])):                          # remove each member / duplicate each key
+                            add(item_replace(seed, pth, lambda x, i=i: ('map', x[1][:i] + x[1][i + 1:])), "member removed")
+                            add(item_replace(seed, pth, lambda x, i=i: ('map', x[1][:i + 1] + [x[1][i]] + x[1][i + 1:])), "key duplicated")
+                            add(item_replace(seed, pth, lambda x, i=i: ('map', x[1] + [x[1][i]])), "key duplicated at end")
+                    w = widen(it, rng)
+                    if w is not None:
+                        add(item_replace(seed, pth, lambda x, w=w: w), "non-minimal head")
+                    ind = indefinite(it)
+                    if ind is not None:
+                        add(item_replace(seed, pth, lambda x, ind=ind: ind), "indefinite length")
+                    if pth:
+                        for alt in OTHER_TYPES:
+                            if alt[0] != it[0]:
+                                add(item_replace(seed, pth, lambda x, alt=alt: alt), "other type")
+    return out
+
+
 NOT_YET = {}
 
 PROPS = {
+    "C05": {"ns": "C05", "cases": cases_c05,
+            "uses": ["decHead_reserved", "readArg_nonminimal", "decHead_wrong_major", "bytes_exact", "str_exact", "vec_exact",
+                     "uint_exact", "i32_exact", "byteArray_exact", "wrong_major_bytes", "wrong_major_str", "wrong_major_uint",
+                     "wrong_major_vec", "wrong_major_struct", "steps_err", "indexed_message", "requiredOk_false", "oneStep_dup",
+                     "oneStep_fails", "failsWith_of_decode"],
+            "level_text": "Proof (PARTIAL for truncation). three_codes: every rejection of every byte string carries 0x01, 0x12 or "
+                          "0x14 (case analysis of the request model over the generated error mapping). bad_command: unassigned / "
+                          "unsupported command bytes => 0x01 whatever follows (C11). empty_message => 0x12. missing_required: a "
+                          "parameter map readable entry by entry, in any member order, that lacks a required member => missing "
+                          "(0x14), never accepted; nested faults propagate outwards with their kind (first fault wins: steps_err, "
+                          "over_limit_in_message). duplicate_key => 0x12. nonminimal_head / decHead_reserved: non-minimal, "
+                          "indefinite (31) and reserved (28-30) heads are refused by every reader for every major type. Wrong "
+                          "major type, over-capacity and out-of-range values => other (G-CAP). NOT PROVED: 'every proper prefix of "
+                          "a valid message => 0x12' (G-PREFIX) — enumerated by the correspondence at every byte offset instead.",
+            "rule": "all 256 command bytes (alone / + empty map); for every command, seeds × {truncate at every offset, remove "
+                    "each member at each depth, duplicate each key (adjacent and at end), widen each head, make each container "
+                    "indefinite, replace each value by 7 other types}",
+            "assumptions": ["statuses of faults inside the COSE key follow the cosey model (App. A)"]},
     "C06": {"ns": "C06", "cases": cases_c06,
             "level_text": "Proof. G-SKIP (Ctap/SkipThm.lean, skipOne_item): Deserializer::ignore consumes exactly one well-formed "
                           "definite-length item of any kind — integers of any width, strings, arrays, maps, tags, floats 16/32/64, "
